@@ -48,7 +48,7 @@ func (s *Sess) havocMods(st *State, mod map[string]bool, oldTop string) {
 			hf := s.fresh("Hf:"+k, sort)
 			s.wfRegion(hf, k, st.top)
 			s.cmds = append(s.cmds, Cmd{'a', fmt.Sprintf("(assert (forall ((o Int)) (! (=> (< o %s) (= (select %s o) (select %s o))) :pattern ((select %s o))))) ;@lambda (assert (= %s (lambda ((o Int)) (ite (< o %s) (select %s o) (select %s o)))))",
-				oldTop, st.heap[k], old, st.heap[k], st.heap[k], oldTop, old, hf), nil})
+				oldTop, st.heap[k], old, st.heap[k], st.heap[k], oldTop, old, hf), nil, s.curBlk})
 		}
 	}
 }
